@@ -52,6 +52,7 @@ func c14Monitor(args []string) int {
 		bad := false
 		call := func(name string, f func()) bool {
 			log = append(log, name)
+			setCurrent(in())
 			if !callWithWatchdog(wd, f) {
 				rep.Violate("lifecycle-call-hangs", in(), name+" did not return within 15 s")
 				bad = true
